@@ -36,7 +36,7 @@ func init() {
 		Rule:           "runs = 10-40 server-authorization posts (new, duplicate with changed ports or location, ban, un-ban attempt, bad / foreign signature, before registration) to 1-3 mutually forwarding servers with peers up or down, each server's list compared with its model after every post; then 6-20 client sync rounds against real servers (lists, GCA-signed bans that repeat the address / name the key only / name another address, GCA-signed migration orders with usable, banned-only or empty new lists and orders naming the current GCA) and a rogue server (orders for another device, outer signature by a foreign or the new GCA, inner signatures by the old GCA, replays of non-banned entries, valid relayed orders) with client restarts; after every round - successful or failed - the client's GCA, id and server map are compared with the model of the signature rules, the three files must decode to exactly the adopted state and a restart must resume with it; non-trivial = at least one ban was learned and one migration order (valid or forged) was presented; distinct = distinct decision signatures",
 		Real:           []string{"AuthorizedServersHandler GET/POST incl. forwarding to peers", "EquipmentMigrateHandler", "sync handler", "client sync round: parser, merge, migration adoption, persistence; client start-up load"},
 		Stub:           []string{"rogue server (harness, holding a configured server's key)", "TCP/HTTP (simulated fabric)"},
-		RequiredProbes: []string{"c17.srv.ban", "c17.srv.unban-attempt", "c17.srv.changed-ports", "c17.srv.forwarded", "c17.cli.ban-learned", "c17.cli.migration-adopted", "c17.cli.forged-order", "c17.cli.restart", "c17.cli.unban-replay", "c17.cli.forged-dup-entry", "c17.srv.altered-after-signing", "c17.cli.order-without-usable-server", "c17.cli.key-only-ban", "c17.cli.order-to-same-gca", "c17.cli.rogue-in-new-list", "c17.srv.order-with-bad-inner-entry"},
+		RequiredProbes: []string{"c17.srv.ban", "c17.srv.unban-attempt", "c17.srv.changed-ports", "c17.srv.forwarded", "c17.cli.ban-learned", "c17.cli.migration-adopted", "c17.cli.forged-order", "c17.cli.restart", "c17.cli.unban-replay", "c17.cli.forged-dup-entry", "c17.srv.altered-after-signing", "c17.cli.order-without-usable-server", "c17.cli.key-only-ban", "c17.cli.order-to-same-gca", "c17.cli.rogue-in-new-list", "c17.srv.order-with-bad-inner-entry", "c17.cli.overlapping-rounds"},
 		RequiredSites:  []string{"srvauth.between", "csync.premerge", "csync.postmerge"},
 	})
 }
@@ -438,82 +438,154 @@ func runC17(m *Sim) {
 				return mk(em.NewGCA, em.NewShortID, em.NewServers, em.Signature)
 			}
 		}
-		replies, contacted = nil, nil
-		var ok bool
-		t := w.Do("sync-round", func() { ok, _ = cl.C.VerifSyncRound(Slot()) })
-		if t.Panic != nil {
-			m.Fail("C17.panic", "sync-round", "sync round panicked: %v\n%s", t.Panic, firstRepoFrames(t.Stack))
-		}
-		w.PumpUDP()
-		if ok {
-			if len(replies) == 0 {
-				m.Fail("C17.cli-adopt", "round", "a sync round succeeded without reading any reply")
-			}
-			last := replies[len(replies)-1]
-			from := contacted[len(contacted)-1]
-			rep, err := DecodeSyncReply(last)
-			if err != nil || rep.Refused {
-				m.Fail("C17.cli-adopt", "round", "the client accepted a reply that does not follow the documented layout (%v)", err)
-			}
-			// An honest server's reply carries its list as it is now (for a device
-			// without a pending order): a ban the GCA posted a moment ago included.
-			if from != rogue && from != nil && from.Up && rep.NewGCA == (glow.PublicKey{}) {
-				if have := from.Snap().Servers; !reflect.DeepEqual(rep.Servers, have) && !(len(rep.Servers) == 0 && len(have) == 0) {
-					m.Fail("C17.srv-model", "sync-reply", "the sync reply of %s carries %d server entries that differ from the list that server holds (%d entries): a ban or an addition has not reached the reply", from.Name, len(rep.Servers), len(have))
+		// afterRound applies the signature rules to what a round read and compares.
+		afterRound := func(ok bool) {
+			if ok {
+				if len(replies) == 0 {
+					m.Fail("C17.cli-adopt", "round", "a sync round succeeded without reading any reply")
 				}
-			}
-			if why := c17Valid(rep, from, dev, model.gca); why != "" {
-				m.Fail("C17.cli-adopt", why, "the client accepted a sync reply that lacks a required signature: %s", why)
-			}
-			// Apply the signature rules.
-			before := len(model.servers)
-			bannedBefore := 0
-			for _, e := range model.servers {
-				if e.Banned {
-					bannedBefore++
+				last := replies[len(replies)-1]
+				from := contacted[len(contacted)-1]
+				rep, err := DecodeSyncReply(last)
+				if err != nil || rep.Refused {
+					m.Fail("C17.cli-adopt", "round", "the client accepted a reply that does not follow the documented layout (%v)", err)
 				}
-			}
-			var blank glow.PublicKey
-			if rep.NewGCA != blank && rep.NewGCA != model.gca {
-				model.gca = rep.NewGCA
-				model.id = rep.NewShortID
-				model.servers = map[glow.PublicKey]client.GCAServer{}
-				m.Probe("c17.cli.migration-adopted")
-			}
-			for _, s := range rep.Servers {
-				if _, exists := model.servers[s.PublicKey]; !exists || s.Banned {
-					model.servers[s.PublicKey] = client.GCAServer{Banned: s.Banned, Location: s.Location, HttpPort: s.HttpPort, TcpPort: s.TcpPort, UdpPort: s.UdpPort}
+				// An honest server's reply carries its list as it is now (for a device
+				// without a pending order): a ban the GCA posted a moment ago included.
+				if from != rogue && from != nil && from.Up && rep.NewGCA == (glow.PublicKey{}) {
+					if have := from.Snap().Servers; !reflect.DeepEqual(rep.Servers, have) && !(len(rep.Servers) == 0 && len(have) == 0) {
+						m.Fail("C17.srv-model", "sync-reply", "the sync reply of %s carries %d server entries that differ from the list that server holds (%d entries): a ban or an addition has not reached the reply", from.Name, len(rep.Servers), len(have))
+					}
 				}
-			}
-			bannedAfter := 0
-			for _, e := range model.servers {
-				if e.Banned {
-					bannedAfter++
+				if why := c17Valid(rep, from, dev, model.gca); why != "" {
+					m.Fail("C17.cli-adopt", why, "the client accepted a sync reply that lacks a required signature: %s", why)
 				}
-			}
-			if bannedAfter > bannedBefore && len(model.servers) >= before {
-				m.Probe("c17.cli.ban-learned")
-				bansLearned++
-			}
-			compare("round")
-			nb := 0
-			for _, e := range model.servers {
-				if e.Banned {
-					nb++
+				// Apply the signature rules.
+				before := len(model.servers)
+				bannedBefore := 0
+				for _, e := range model.servers {
+					if e.Banned {
+						bannedBefore++
+					}
 				}
-			}
-			m.NoteState(RoleOf(model.gca), model.id, len(model.servers), nb)
-		} else {
-			// A round that fails adopts nothing and persists nothing.
-			compare("failed-round")
-			// After a migration the device must be able to talk to the servers
-			// of the GCA it moved to (the only one here is honest and up).
-			if model.gca == newGCA.Pub && len(model.servers) == 1 && !model.servers[nn.Key.Pub].Banned && nn.Up {
-				if _, only := model.servers[nn.Key.Pub]; only {
-					m.Fail("C17.cli-adopt", "post-migration-sync", "after adopting the migration the client cannot complete a sync round with the (honest, reachable) server of its new GCA")
+				var blank glow.PublicKey
+				if rep.NewGCA != blank && rep.NewGCA != model.gca {
+					model.gca = rep.NewGCA
+					model.id = rep.NewShortID
+					model.servers = map[glow.PublicKey]client.GCAServer{}
+					m.Probe("c17.cli.migration-adopted")
+				}
+				for _, s := range rep.Servers {
+					if _, exists := model.servers[s.PublicKey]; !exists || s.Banned {
+						model.servers[s.PublicKey] = client.GCAServer{Banned: s.Banned, Location: s.Location, HttpPort: s.HttpPort, TcpPort: s.TcpPort, UdpPort: s.UdpPort}
+					}
+				}
+				bannedAfter := 0
+				for _, e := range model.servers {
+					if e.Banned {
+						bannedAfter++
+					}
+				}
+				if bannedAfter > bannedBefore && len(model.servers) >= before {
+					m.Probe("c17.cli.ban-learned")
+					bansLearned++
+				}
+				compare("round")
+				nb := 0
+				for _, e := range model.servers {
+					if e.Banned {
+						nb++
+					}
+				}
+				m.NoteState(RoleOf(model.gca), model.id, len(model.servers), nb)
+			} else {
+				// A round that fails adopts nothing and persists nothing.
+				compare("failed-round")
+				// After a migration the device must be able to talk to the servers
+				// of the GCA it moved to (the only one here is honest and up).
+				if model.gca == newGCA.Pub && len(model.servers) == 1 && !model.servers[nn.Key.Pub].Banned && nn.Up {
+					if _, only := model.servers[nn.Key.Pub]; only {
+						m.Fail("C17.cli-adopt", "post-migration-sync", "after adopting the migration the client cannot complete a sync round with the (honest, reachable) server of its new GCA")
+					}
 				}
 			}
 		}
+		runRound := func(name string) bool {
+			replies, contacted = nil, nil
+			var ok bool
+			t := w.Do(name, func() { ok, _ = cl.C.VerifSyncRound(Slot()) })
+			if t.Panic != nil {
+				m.Fail("C17.panic", "sync-round", "sync round panicked: %v\n%s", t.Panic, firstRepoFrames(t.Stack))
+			}
+			w.PumpUDP()
+			return ok
+		}
+		if model.gca == gca.Pub && m.C.Chance("overlapping-rounds", 1, 5) {
+			// Two rounds of one client overlap (its loop starts every round in a
+			// goroutine of its own): the older one has merged its reply and is
+			// parked right behind its critical section, the GCA bans a server, a
+			// younger round learns of the ban and finishes, the older one goes on.
+			// What the client knows and what its files hold is then the result of
+			// both replies, in that order.
+			site := cl.Name + ":csync.postmerge"
+			w.S.EnableSites("csync.postmerge")
+			w.S.Hold(site)
+			replies, contacted = nil, nil
+			var okA bool
+			tA := w.Go("sync-round-older", func() { okA, _ = cl.C.VerifSyncRound(Slot()) })
+			parkedBehindMerge := func() bool {
+				for _, p := range w.S.Parked(true) {
+					if p.Name == tA.Name && p.Site == "csync.postmerge" {
+						return true
+					}
+				}
+				return false
+			}
+			w.Settle()
+			for k := 0; k < 400 && !tA.Done() && !parkedBehindMerge(); k++ {
+				w.Advance(50 * time.Millisecond)
+			}
+			if !parkedBehindMerge() {
+				var ps []string
+				for _, p := range w.S.Parked(true) {
+					ps = append(ps, p.Name+"@"+p.Node+":"+p.Site)
+				}
+				w.Logf("overlapping rounds: older round not parked behind its merge (done=%v, parked: %v)", tA.Done(), ps)
+				// The older round failed (or is stuck, which Finish reports).
+				w.S.Unhold(site)
+				w.S.DisableSites("csync.postmerge")
+				w.Finish(tA)
+				if tA.Panic != nil {
+					m.Fail("C17.panic", "sync-round", "sync round panicked: %v\n%s", tA.Panic, firstRepoFrames(tA.Stack))
+				}
+				w.PumpUDP()
+				afterRound(okA)
+				continue
+			}
+			afterRound(true) // its reply is merged and persisted
+			w.S.Hold(tA.Name)
+			w.S.Unhold(site)
+			victim := clientServers[m.C.Int("victim", len(clientServers))]
+			ban := SignServer(gca, server.AuthorizedServer{PublicKey: victim.Key.Pub, Banned: true, Location: victim.Loc, HttpPort: victim.HTTP, TcpPort: victim.TCP, UdpPort: victim.UDP})
+			for _, n := range nodes {
+				n.DoAuthorizeServer(ban)
+			}
+			afterRound(runRound("sync-round-younger"))
+			w.S.Unhold(tA.Name)
+			w.Finish(tA)
+			if tA.Panic != nil {
+				m.Fail("C17.panic", "sync-round", "sync round panicked: %v\n%s", tA.Panic, firstRepoFrames(tA.Stack))
+			}
+			w.PumpUDP()
+			if !okA {
+				m.Fail("C17.cli-adopt", "overlapping-rounds", "a round that had accepted and merged its reply ended as a failed round")
+			}
+			w.S.DisableSites("csync.postmerge")
+			compare("after-overlapping-rounds")
+			m.Probe("c17.cli.overlapping-rounds")
+			continue
+		}
+		afterRound(runRound("sync-round"))
 	}
 	if bansLearned > 0 && orders > 0 {
 		m.Probe("nontrivial")
